@@ -143,4 +143,957 @@ theorem turbo_shapes :
 example : checksum (List.replicate 257 255) = 65535 ∧ eac (List.replicate 257 255) = 65535 := by decide +kernel
 example : bin 0o1000 [1, 2, 3] = some [0, 2, 3, 0, 1, 2, 3] := by decide
 
+/-! ## part B -/
+open Pdpy11.Gen
+
+/-- the bits of a byte string as the tape carries them: byte by byte, least significant bit first -/
+def bitsOf (bytes : List Nat) : List Bool :=
+  bytes.flatMap (fun b => (List.range 8).map (fun i => decide (b / 2 ^ i % 2 = 1)))
+
+theorem bitsOf_length (bytes : List Nat) : (bitsOf bytes).length = 8 * bytes.length := by
+  induction bytes with
+  | nil => rfl
+  | cons b t ih => simp [bitsOf] at *; omega
+
+theorem bitsToBytes_cons8 (b0 b1 b2 b3 b4 b5 b6 b7 : Bool) (rest : List Bool) :
+    bitsToBytes (b0 :: b1 :: b2 :: b3 :: b4 :: b5 :: b6 :: b7 :: rest) =
+      bitsToBytes [b0, b1, b2, b3, b4, b5, b6, b7] ++ bitsToBytes rest := by
+  simp [bitsToBytes]
+
+/-- reading the bits back gives the bytes -/
+theorem bitsToBytes_bitsOf (bytes : List Nat) (h : ∀ b ∈ bytes, b < 256) : bitsToBytes (bitsOf bytes) = bytes := by
+  induction bytes with
+  | nil => rfl
+  | cons b t ih =>
+    have hb := byte_bits_lsb_first b (h b (by simp))
+    have ht := ih (fun x hx => h x (by simp [hx]))
+    simp only [bitsOf, List.flatMap_cons] at *
+    have h8 : (List.range 8).map (fun i => decide (b / 2 ^ i % 2 = 1)) =
+        [decide (b / 2 ^ 0 % 2 = 1), decide (b / 2 ^ 1 % 2 = 1), decide (b / 2 ^ 2 % 2 = 1), decide (b / 2 ^ 3 % 2 = 1),
+         decide (b / 2 ^ 4 % 2 = 1), decide (b / 2 ^ 5 % 2 = 1), decide (b / 2 ^ 6 % 2 = 1), decide (b / 2 ^ 7 % 2 = 1)] := by
+      simp [List.range, List.range.loop]
+    rw [h8] at hb ⊢
+    simp only [List.cons_append, List.nil_append]
+    rw [bitsToBytes_cons8, hb, ht]
+    rfl
+
+/-! ### turbo: one pulse per bit -/
+
+/-- a pulse list that carries the given bits in the turbo format: high phase at most 4 samples,
+at least 2 for a one (the low phase is irrelevant) -/
+def TurboFor : List Bool → List (Nat × Nat) → Prop
+  | [], [] => True
+  | b :: bs, p :: ps => p.1 ≤ 4 ∧ decide (p.1 ≥ 2) = b ∧ TurboFor bs ps
+  | _, _ => False
+
+theorem readBitsTurbo_ideal (bits : List Bool) (ps rest : List (Nat × Nat)) (h : TurboFor bits ps) :
+    readBitsTurbo bits.length (ps ++ rest) = some (bits, rest) := by
+  induction bits generalizing ps with
+  | nil => cases ps with
+    | nil => rfl
+    | cons p ps => simp [TurboFor] at h
+  | cons b bs ih =>
+    cases ps with
+    | nil => simp [TurboFor] at h
+    | cons p ps =>
+      obtain ⟨h1, h2, h3⟩ := h
+      simp only [List.length_cons, List.cons_append, readBitsTurbo, h1, if_true]
+      rw [ih ps h3]
+      simp [h2]
+
+theorem skipToMarker_pilot (m : Nat) (pilot : List (Nat × Nat)) (marker : Nat × Nat) (rest : List (Nat × Nat))
+    (hp : ∀ p ∈ pilot, p.1 < m) (hm : marker.1 ≥ m) :
+    skipToMarker m (pilot ++ marker :: rest) = some (pilot.length, rest) := by
+  induction pilot with
+  | nil => simp [skipToMarker, hm]
+  | cons p t ih =>
+    have : ¬ p.1 ≥ m := by have := hp p (by simp); omega
+    simp only [List.cons_append, skipToMarker, this, if_false]
+    rw [ih (fun x hx => hp x (by simp [hx]))]
+    simp
+
+theorem TurboFor_append (b1 b2 : List Bool) (p1 p2 : List (Nat × Nat)) (h1 : TurboFor b1 p1) (h2 : TurboFor b2 p2) :
+    TurboFor (b1 ++ b2) (p1 ++ p2) := by
+  induction b1 generalizing p1 with
+  | nil => cases p1 with
+    | nil => simpa using h2
+    | cons p ps => simp [TurboFor] at h1
+  | cons b bs ih =>
+    cases p1 with
+    | nil => simp [TurboFor] at h1
+    | cons p ps => exact ⟨h1.1, h1.2.1, ih ps h1.2.2⟩
+
+/-- **Turbo format, logical layer, for every image.** A pulse list made of a pilot (at least 256
+short pulses), the marker, the pulses of the 20 header bytes, of the image bytes and of the
+checksum word, and a short trailer is demodulated to exactly base, length, name, image, checksum. -/
+theorem demodTurbo_ideal_partial (base : Nat) (code name : Bytes) (cks : Nat)
+    (hb : base < 65536) (hl : code.length < 65536) (hc : ∀ b ∈ code, b < 256) (hn : ∀ b ∈ name16 name, b < 256) (hk : cks < 65536)
+    (pilot hp dp tail : List (Nat × Nat)) (marker : Nat × Nat)
+    (hpil : ∀ p ∈ pilot, p.1 < 8) (hplen : 256 ≤ pilot.length) (hm : marker.1 ≥ 8)
+    (hhp : TurboFor (bitsOf (tapeHeader base code name)) hp) (hdp : TurboFor (bitsOf (code ++ le16 cks)) dp)
+    (htail : tail.length ≤ 4) :
+    demodTurboP (pilot ++ marker :: (hp ++ (dp ++ tail))) =
+      some ⟨base, code.length, name16 name, code, cks, pilot.length⟩ := by
+  have hhdr := tape_header_layout base code name hb hl
+  have hhdrbytes : ∀ b ∈ tapeHeader base code name, b < 256 := by
+    intro b hbm
+    simp only [tapeHeader, List.mem_append] at hbm
+    rcases hbm with (h | h) | h
+    · simp [le16] at h; rcases h with h | h <;> omega
+    · simp [le16] at h; rcases h with h | h <;> omega
+    · exact hn b h
+  have hlen160 : (bitsOf (tapeHeader base code name)).length = 160 := by rw [bitsOf_length, hhdr.1]
+  have hcb : ∀ b ∈ code ++ le16 cks, b < 256 := by
+    intro b hbm
+    rcases List.mem_append.mp hbm with h | h
+    · exact hc b h
+    · simp [le16] at h; rcases h with h | h <;> omega
+  have hdlen : (bitsOf (code ++ le16 cks)).length = 8 * code.length + 16 := by
+    rw [bitsOf_length]; simp [le16]; omega
+  unfold demodTurboP
+  simp only [skipToMarker_pilot 8 pilot marker _ hpil hm, Option.bind_eq_bind, Option.bind_some]
+  have hnot : ¬ pilot.length < 256 := by omega
+  simp only [hnot, if_false]
+  have r1 := readBitsTurbo_ideal _ hp (dp ++ tail) hhp
+  rw [hlen160] at r1
+  simp only [r1, Option.bind_some, bitsToBytes_bitsOf _ hhdrbytes, hhdr.2.2.1]
+  have r2 := readBitsTurbo_ideal _ dp tail hdp
+  rw [hdlen] at r2
+  simp only [r2, Option.bind_some, bitsToBytes_bitsOf _ hcb, htail, if_true, hhdr.2.1, hhdr.2.2.2]
+  simp [rd16, le16]
+  omega
+
+/-! ### normal speed: a sync pulse and a data pulse per bit -/
+
+/-- a pulse list that carries the given bits at normal speed: per bit a sync pulse (high phase at
+most 2 samples) and a data pulse (at most 6, at least 3 for a one) -/
+def NormalFor : List Bool → List (Nat × Nat) → Prop
+  | [], [] => True
+  | b :: bs, s :: d :: ps => s.1 ≤ 2 ∧ d.1 ≤ 6 ∧ decide (d.1 ≥ 3) = b ∧ NormalFor bs ps
+  | _, _ => False
+
+theorem readBitsNormal_ideal (bits : List Bool) (ps rest : List (Nat × Nat)) (h : NormalFor bits ps) :
+    readBitsNormal bits.length (ps ++ rest) = some (bits, rest) := by
+  induction bits generalizing ps with
+  | nil => cases ps with
+    | nil => rfl
+    | cons p ps => simp [NormalFor] at h
+  | cons b bs ih =>
+    match ps, h with
+    | s :: d :: ps, h =>
+      obtain ⟨h1, h2, h3, h4⟩ := h
+      simp only [List.length_cons, List.cons_append, readBitsNormal, h1, h2, and_self, if_true]
+      rw [ih ps h4]
+      simp [h3]
+
+/-- **Normal speed, logical layer, for every image.** Pilot (at least 256 short pulses), marker,
+a one, short pilot, marker, a one, the pulses of the 20 header bytes, short pilot, marker, a one,
+the pulses of the image bytes and of the checksum word, a trailer of short pulses: the demodulator
+of the BK-0010 monitor's reading returns exactly base, length, name, image, checksum. -/
+theorem demodNormal_ideal_partial (base : Nat) (code name : Bytes) (cks : Nat)
+    (hb : base < 65536) (hl : code.length < 65536) (hc : ∀ b ∈ code, b < 256) (hn : ∀ b ∈ name16 name, b < 256) (hk : cks < 65536)
+    (pilot1 pilot2 pilot3 hp dp tail : List (Nat × Nat)) (m1 m2 m3 o1 o2 o3 : Nat × Nat)
+    (hp1 : ∀ p ∈ pilot1, p.1 < 7) (hplen : 256 ≤ pilot1.length) (hp2 : ∀ p ∈ pilot2, p.1 < 7) (hp3 : ∀ p ∈ pilot3, p.1 < 7)
+    (hm1 : m1.1 ≥ 7) (hm2 : m2.1 ≥ 7) (hm3 : m3.1 ≥ 7)
+    (ho1 : 3 ≤ o1.1 ∧ o1.1 ≤ 6) (ho2 : 3 ≤ o2.1 ∧ o2.1 ≤ 6) (ho3 : 3 ≤ o3.1 ∧ o3.1 ≤ 6)
+    (hhp : NormalFor (bitsOf (tapeHeader base code name)) hp) (hdp : NormalFor (bitsOf (code ++ le16 cks)) dp)
+    (htail : ∀ p ∈ tail, p.1 ≤ 2) :
+    demodNormalP (pilot1 ++ m1 :: o1 :: (pilot2 ++ m2 :: o2 :: (hp ++ (pilot3 ++ m3 :: o3 :: (dp ++ tail))))) =
+      some ⟨base, code.length, name16 name, code, cks, pilot1.length⟩ := by
+  have hhdr := tape_header_layout base code name hb hl
+  have hhdrbytes : ∀ b ∈ tapeHeader base code name, b < 256 := by
+    intro b hbm
+    simp only [tapeHeader, List.mem_append] at hbm
+    rcases hbm with (h | h) | h
+    · simp [le16] at h; rcases h with h | h <;> omega
+    · simp [le16] at h; rcases h with h | h <;> omega
+    · exact hn b h
+  have hlen160 : (bitsOf (tapeHeader base code name)).length = 160 := by rw [bitsOf_length, hhdr.1]
+  have hcb : ∀ b ∈ code ++ le16 cks, b < 256 := by
+    intro b hbm
+    rcases List.mem_append.mp hbm with h | h
+    · exact hc b h
+    · simp [le16] at h; rcases h with h | h <;> omega
+  have hdlen : (bitsOf (code ++ le16 cks)).length = 8 * code.length + 16 := by
+    rw [bitsOf_length]; simp [le16]; omega
+  unfold demodNormalP
+  simp only [skipToMarker_pilot 7 pilot1 m1 _ hp1 hm1, Option.bind_eq_bind, Option.bind_some]
+  have hnot : ¬ pilot1.length < 256 := by omega
+  simp only [hnot, if_false, demodNormalP.readOne, Option.bind_some, skipToMarker_pilot 7 pilot2 m2 _ hp2 hm2]
+  have r1 := readBitsNormal_ideal _ hp (pilot3 ++ m3 :: o3 :: (dp ++ tail)) hhp
+  rw [hlen160] at r1
+  simp only [r1, Option.bind_some, bitsToBytes_bitsOf _ hhdrbytes, hhdr.2.2.1, skipToMarker_pilot 7 pilot3 m3 _ hp3 hm3]
+  have r2 := readBitsNormal_ideal _ dp tail hdp
+  rw [hdlen] at r2
+  simp only [r2, Option.bind_some, bitsToBytes_bitsOf _ hcb, hhdr.2.1, hhdr.2.2.2]
+  have hall : tail.all (fun p => decide (p.1 ≤ 2)) = true := by
+    simp only [List.all_eq_true, decide_eq_true_eq]; exact htail
+  simp [ho1, ho2, ho3, hall, rd16, le16]
+  omega
+
+
+/-! ## part C -/
+open Pdpy11.Gen
+
+/-- a stretch of equal samples: (level, length) -/
+abbrev Run := Nat × Nat
+
+def isHigh (r : Run) : Bool := decide (r.1 ≥ 128)
+
+theorem expandRuns_cons (r : Run) (rs : List Run) : expandRuns (r :: rs) = List.replicate r.2 r.1 ++ expandRuns rs := by
+  simp [expandRuns]
+
+theorem expandRuns_append (a b : List Run) : expandRuns (a ++ b) = expandRuns a ++ expandRuns b := by
+  simp [expandRuns]
+
+/-- pairs (high length, high level, low length) read from the right: low runs are added to the pulse of
+the high run before them -/
+def pairStep (r : Run) (st : Nat × List (Nat × Nat × Nat)) : Nat × List (Nat × Nat × Nat) :=
+  if isHigh r then (0, (r.2, r.1, st.1) :: st.2) else (st.1 + r.2, st.2)
+
+def toPairs (rs : List Run) : Nat × List (Nat × Nat × Nat) := rs.foldr pairStep (0, [])
+
+def expandPairs (ps : List (Nat × Nat × Nat)) : Bytes :=
+  ps.flatMap (fun p => List.replicate p.1 p.2.1 ++ List.replicate p.2.2 48)
+
+/-- regrouping does not change the samples (all low runs are at level 48 in the emitted shapes) -/
+theorem expand_toPairs (rs : List Run) (hlow : ∀ r ∈ rs, isHigh r = false → r.1 = 48) :
+    List.replicate (toPairs rs).1 48 ++ expandPairs (toPairs rs).2 = expandRuns rs := by
+  induction rs with
+  | nil => simp [toPairs, expandPairs, expandRuns]
+  | cons r rs ih =>
+    have ih' := ih (fun x hx => hlow x (by simp [hx]))
+    simp only [toPairs, List.foldr_cons] at *
+    rw [expandRuns_cons, ← ih']
+    unfold pairStep
+    by_cases hh : isHigh r = true
+    · simp [hh, expandPairs]
+    · have hf : isHigh r = false := by simpa using hh
+      have := hlow r (by simp) hf
+      simp only [hf, Bool.false_eq_true, if_false]
+      rw [this, Nat.add_comm, ← List.replicate_append_replicate, List.append_assoc]
+
+/-! ### `pulses` on a list of proper pulses -/
+
+theorem takeWhile_replicate_ge (a hi : Nat) (rest : List Nat) (hhi : hi ≥ 128) (hrest : ∀ x, rest.head? = some x → x < 128) :
+    (List.replicate a hi ++ rest).takeWhile (· ≥ 128) = List.replicate a hi ∧
+    (List.replicate a hi ++ rest).dropWhile (· ≥ 128) = rest := by
+  induction a with
+  | zero =>
+    cases rest with
+    | nil => simp
+    | cons x t =>
+      have := hrest x (by simp)
+      have hx : ¬ x ≥ 128 := by omega
+      simp [List.takeWhile, List.dropWhile, hx]
+  | succ a ih =>
+    simp [List.replicate_succ, List.takeWhile, List.dropWhile, hhi, ih.1, ih.2]
+
+theorem takeWhile_replicate_lt (b lo : Nat) (rest : List Nat) (hlo : lo < 128) (hrest : ∀ x, rest.head? = some x → x ≥ 128) :
+    (List.replicate b lo ++ rest).takeWhile (· < 128) = List.replicate b lo ∧
+    (List.replicate b lo ++ rest).dropWhile (· < 128) = rest := by
+  induction b with
+  | zero =>
+    cases rest with
+    | nil => simp
+    | cons x t =>
+      have := hrest x (by simp)
+      have hx : ¬ x < 128 := by omega
+      simp [List.takeWhile, List.dropWhile, hx]
+  | succ b ih =>
+    simp [List.replicate_succ, List.takeWhile, List.dropWhile, hlo, ih.1, ih.2]
+
+/-- all high levels are high, all pulses have a low phase -/
+def ProperPairs (ps : List (Nat × Nat × Nat)) : Prop := ∀ p ∈ ps, p.1 ≥ 1 ∧ p.2.1 ≥ 128 ∧ p.2.2 ≥ 1
+
+theorem expandPairs_head_high (ps : List (Nat × Nat × Nat)) (h : ProperPairs ps) :
+    ∀ x, (expandPairs ps).head? = some x → x ≥ 128 := by
+  cases ps with
+  | nil => intro x hx; simp [expandPairs] at hx
+  | cons p t =>
+    obtain ⟨ha, hhi, _⟩ := h p (by simp)
+    intro x hx
+    obtain ⟨a, hi, b⟩ := p
+    simp only [expandPairs, List.flatMap_cons] at hx
+    simp only [] at ha hhi
+    cases a with
+    | zero => simp at ha
+    | succ a =>
+      simp [List.replicate_succ] at hx
+      omega
+
+theorem pulsesFuel_pairs (ps : List (Nat × Nat × Nat)) (h : ProperPairs ps) (n : Nat) (hn : ps.length ≤ n) :
+    pulsesFuel n (expandPairs ps) = ps.map (fun p => (p.1, p.2.2)) := by
+  induction ps generalizing n with
+  | nil => cases n <;> simp [pulsesFuel, expandPairs]
+  | cons p t ih =>
+    obtain ⟨a, hi, b⟩ := p
+    obtain ⟨ha, hhi, hb⟩ := h (a, hi, b) (by simp)
+    have ht : ProperPairs t := fun q hq => h q (by simp [hq])
+    cases n with
+    | zero => simp at hn
+    | succ n =>
+      have hexp : expandPairs ((a, hi, b) :: t) = List.replicate a hi ++ (List.replicate b 48 ++ expandPairs t) := by
+        simp [expandPairs, List.append_assoc]
+      have hne : List.replicate a hi ++ (List.replicate b 48 ++ expandPairs t) ≠ [] := by
+        cases a with
+        | zero => simp at ha
+        | succ a => simp [List.replicate_succ]
+      rw [hexp]
+      have h1 := takeWhile_replicate_ge a hi (List.replicate b 48 ++ expandPairs t) hhi (by
+        intro x hx
+        cases b with
+        | zero => simp at hb
+        | succ b => simp [List.replicate_succ] at hx; omega)
+      have h2 := takeWhile_replicate_lt b 48 (expandPairs t) (by omega) (expandPairs_head_high t ht)
+      cases hl : List.replicate a hi ++ (List.replicate b 48 ++ expandPairs t) with
+      | nil => exact absurd hl hne
+      | cons x xs =>
+        rw [← hl]
+        unfold pulsesFuel
+        rw [hl]
+        simp only []
+        rw [← hl, h1.1, h1.2, h2.1, h2.2]
+        simp [ih ht n (by simpa using hn)]
+
+/-- the run-length detector reads a stream of proper pulses as exactly those pulses -/
+theorem pulses_pairs (ps : List (Nat × Nat × Nat)) (h : ProperPairs ps) :
+    pulses (expandPairs ps) = ps.map (fun p => (p.1, p.2.2)) := by
+  unfold pulses
+  apply pulsesFuel_pairs ps h
+  -- every pulse has at least one sample
+  have : ps.length ≤ (expandPairs ps).length := by
+    induction ps with
+    | nil => simp
+    | cons p t ih =>
+      have hp := h p (by simp)
+      have := ih (fun q hq => h q (by simp [hq]))
+      simp only [expandPairs, List.flatMap_cons, List.length_append, List.length_replicate, List.length_cons] at *
+      omega
+  omega
+
+/-! ### the emitted shapes as run lists -/
+
+def rleRuns (r : Gen.Rle) : List Run := r.flatMap (fun blk => (List.replicate blk.2 blk.1).flatten)
+
+theorem expandRuns_flatten_replicate (k : Nat) (runs : List Run) :
+    expandRuns (List.replicate k runs).flatten = (List.replicate k (expandRuns runs)).flatten := by
+  induction k with
+  | zero => simp [expandRuns]
+  | succ k ih => simp [List.replicate_succ, expandRuns_append, ih]
+
+theorem expandRle_eq (r : Gen.Rle) : expandRle r = expandRuns (rleRuns r) := by
+  induction r with
+  | nil => simp [expandRle, rleRuns, expandRuns]
+  | cons blk t ih =>
+    simp only [expandRle, rleRuns, List.flatMap_cons] at *
+    rw [expandRuns_append, expandRuns_flatten_replicate, ← ih]
+
+/-- every run is non-empty, low runs are at level 48, and every high run is followed (inside the
+list) by a low run -/
+def OkRuns : List Run → Prop
+  | [] => True
+  | r :: rs => r.2 ≥ 1 ∧ (isHigh r = false → r.1 = 48) ∧ (isHigh r = true → ∃ l rest, rs = l :: rest ∧ isHigh l = false) ∧ OkRuns rs
+
+theorem okRuns_append (a b : List Run) (ha : OkRuns a) (hb : OkRuns b) : OkRuns (a ++ b) := by
+  induction a with
+  | nil => simpa using hb
+  | cons r rs ih =>
+    obtain ⟨h1, h2, h3, h4⟩ := ha
+    refine ⟨h1, h2, ?_, ih h4⟩
+    intro hh
+    obtain ⟨l, rest, hrs, hl⟩ := h3 hh
+    exact ⟨l, rest ++ b, by simp [hrs], hl⟩
+
+theorem okRuns_flatten_replicate (k : Nat) (runs : List Run) (h : OkRuns runs) : OkRuns (List.replicate k runs).flatten := by
+  induction k with
+  | zero => simp [OkRuns]
+  | succ k ih => rw [List.replicate_succ, List.flatten_cons]; exact okRuns_append _ _ h ih
+
+theorem okRuns_flatMap {α : Type} (l : List α) (f : α → List Run) (h : ∀ x ∈ l, OkRuns (f x)) : OkRuns (l.flatMap f) := by
+  induction l with
+  | nil => simp [OkRuns]
+  | cons x t ih =>
+    rw [List.flatMap_cons]
+    exact okRuns_append _ _ (h x (by simp)) (ih (fun y hy => h y (by simp [hy])))
+
+theorem okRuns_low (rs : List Run) (h : OkRuns rs) : ∀ r ∈ rs, isHigh r = false → r.1 = 48 := by
+  induction rs with
+  | nil => intro r hr; simp at hr
+  | cons x t ih =>
+    intro r hr
+    rcases List.mem_cons.mp hr with h1 | h1
+    · subst h1; exact h.2.1
+    · exact ih h.2.2.2 r h1
+
+/-- the pending low length in front of a list that starts with a (non-empty) low run is positive -/
+theorem toPairs_pend_pos (l : Run) (rest : List Run) (hl : isHigh l = false) (hlen : l.2 ≥ 1) : (toPairs (l :: rest)).1 ≥ 1 := by
+  simp only [toPairs, List.foldr_cons, pairStep, hl, Bool.false_eq_true, if_false]
+  omega
+
+theorem toPairs_proper (rs : List Run) (h : OkRuns rs) : ProperPairs (toPairs rs).2 := by
+  induction rs with
+  | nil => intro p hp; simp [toPairs] at hp
+  | cons r rs ih =>
+    obtain ⟨h1, h2, h3, h4⟩ := h
+    have ih' := ih h4
+    simp only [toPairs, List.foldr_cons] at *
+    unfold pairStep
+    by_cases hh : isHigh r = true
+    · simp only [hh, if_true]
+      intro p hp
+      rcases List.mem_cons.mp hp with hp | hp
+      · subst hp
+        obtain ⟨l, rest, hrs, hl⟩ := h3 hh
+        have hlen : l.2 ≥ 1 := by rw [hrs] at h4; exact h4.1
+        have := toPairs_pend_pos l rest hl hlen
+        rw [← hrs] at this
+        simp only [toPairs] at this
+        refine ⟨h1, by simpa [isHigh] using hh, this⟩
+      · exact ih' p hp
+    · simp only [hh, if_false]
+      exact ih'
+
+theorem toPairs_pend_zero (r : Run) (rs : List Run) (hh : isHigh r = true) : (toPairs (r :: rs)).1 = 0 := by
+  simp [toPairs, pairStep, hh]
+
+theorem toPairs_cons (r : Run) (rs : List Run) : toPairs (r :: rs) = pairStep r (toPairs rs) := rfl
+
+theorem toPairs_highs (rs : List Run) : (toPairs rs).2.map (fun p => p.1) = (rs.filter isHigh).map (fun r => r.2) := by
+  induction rs with
+  | nil => simp [toPairs]
+  | cons r rs ih =>
+    rw [toPairs_cons]
+    by_cases hh : isHigh r = true
+    · simp [pairStep, hh, ih]
+    · simp [pairStep, hh, ih]
+
+/-- **the detector on any well-formed run list**: one pulse per high run, in order -/
+theorem pulses_runs (rs : List Run) (h : OkRuns rs) (r0 : Run) (rest : List Run) (hrs : rs = r0 :: rest) (h0 : isHigh r0 = true) :
+    (pulses (expandRuns rs)).map Prod.fst = (rs.filter isHigh).map (fun r => r.2) := by
+  have he := expand_toPairs rs (okRuns_low rs h)
+  have hz : (toPairs rs).1 = 0 := by rw [hrs]; exact toPairs_pend_zero r0 rest h0
+  rw [hz] at he
+  simp only [List.replicate_zero, List.nil_append] at he
+  rw [← he, pulses_pairs _ (toPairs_proper rs h), ← toPairs_highs]
+  simp [List.map_map, Function.comp_def]
+
+
+/-! ## part D -/
+open Pdpy11.Gen
+
+def okRunsB : List Run → Bool
+  | [] => true
+  | r :: rs => decide (r.2 ≥ 1) && (isHigh r || decide (r.1 = 48)) &&
+      (!isHigh r || (match rs with | l :: _ => !isHigh l | [] => false)) && okRunsB rs
+
+theorem okRuns_of_B (rs : List Run) (h : okRunsB rs = true) : OkRuns rs := by
+  induction rs with
+  | nil => trivial
+  | cons r rs ih =>
+    simp only [okRunsB, Bool.and_eq_true, decide_eq_true_eq, Bool.or_eq_true, Bool.not_eq_true'] at h
+    obtain ⟨⟨⟨h1, h2⟩, h3⟩, h4⟩ := h
+    refine ⟨h1, ?_, ?_, ih h4⟩
+    · intro hf; rcases h2 with h2 | h2
+      · rw [hf] at h2; cases h2
+      · exact h2
+    · intro hh
+      rcases h3 with h3 | h3
+      · rw [hh] at h3; cases h3
+      · cases rs with
+        | nil => simp at h3
+        | cons l rest => exact ⟨l, rest, rfl, by simpa using h3⟩
+
+theorem flatMap_congrP {α β : Type} (l : List α) (f g : α → List β) (h : ∀ x ∈ l, f x = g x) : l.flatMap f = l.flatMap g := by
+  induction l with
+  | nil => rfl
+  | cons x t ih => simp [List.flatMap_cons, h x (by simp), ih (fun y hy => h y (by simp [hy]))]
+
+theorem rleRuns_three (a b c : List Run) (k : Nat) : rleRuns [(a, k), (b, 1), (c, 1)] = (List.replicate k a).flatten ++ (b ++ c) := by
+  simp [rleRuns]
+
+theorem expandRuns_flatMap {α : Type} (l : List α) (f : α → List Run) : expandRuns (l.flatMap f) = l.flatMap (fun x => expandRuns (f x)) := by
+  induction l with
+  | nil => simp [expandRuns]
+  | cons x t ih => simp [List.flatMap_cons, expandRuns_append, ih]
+
+/-- the runs of the bits of a byte string -/
+def bitsRuns (env : WavEnvG) (bytes : Bytes) : List Run :=
+  bytes.flatMap (fun byte => (List.range 8).flatMap (fun i => rleRuns (if byte / 2 ^ i % 2 = 1 then env.one else env.zero)))
+
+theorem dataBits_eq (env : WavEnvG) (bytes : Bytes) : dataBits env bytes = expandRuns (bitsRuns env bytes) := by
+  unfold dataBits bitsRuns byteBits
+  rw [expandRuns_flatMap]
+  apply flatMap_congrP
+  intro byte _
+  rw [expandRuns_flatMap]
+  apply flatMap_congrP
+  intro i _
+  by_cases h : byte / 2 ^ i % 2 = 1 <;> simp [h, expandRle_eq]
+
+def trainRunsT (base : Nat) (code name : Bytes) : List Run :=
+  rleRuns wavTurboEnv.sync ++ bitsRuns wavTurboEnv (tapeHeader base code name) ++ rleRuns wavTurboEnv.pause ++
+  bitsRuns wavTurboEnv code ++ rleRuns wavTurboEnv.pause ++ bitsRuns wavTurboEnv (le16 (checksum code)) ++ rleRuns wavTurboEnv.eof
+
+theorem pulseTrain_turbo_eq (base : Nat) (code name : Bytes) :
+    pulseTrain wavTurboEnv true base code name = expandRuns (trainRunsT base code name) := by
+  unfold pulseTrain trainRunsT
+  simp only [if_true, expandRuns_append, dataBits_eq, expandRle_eq]
+
+/-! ### well-formedness and highs of the turbo train -/
+
+theorem turbo_runs :
+    rleRuns wavTurboEnv.one = [(208, 3), (48, 2)] ∧ rleRuns wavTurboEnv.zero = [(208, 1), (48, 2)] ∧
+    rleRuns wavTurboEnv.pause = [(48, 4)] ∧ rleRuns wavTurboEnv.eof = [(200, 3), (48, 3), (200, 3), (48, 3)] ∧
+    rleRuns wavTurboEnv.sync = (List.replicate 1024 [((200 : Nat), (3 : Nat)), (48, 3)]).flatten ++ [(200, 12), (48, 12)] := by
+  refine ⟨by decide, by decide, by decide, by decide, ?_⟩
+  have := turbo_shapes.2.2.2.1
+  rw [this, rleRuns_three]
+  rfl
+
+theorem okRuns_bits (bytes : Bytes) : OkRuns (bitsRuns wavTurboEnv bytes) := by
+  apply okRuns_flatMap
+  intro byte _
+  apply okRuns_flatMap
+  intro i _
+  by_cases h : byte / 2 ^ i % 2 = 1
+  · simp only [h, if_true, turbo_runs.1]; exact okRuns_of_B _ (by decide)
+  · simp only [h, if_false, turbo_runs.2.1]; exact okRuns_of_B _ (by decide)
+
+theorem okRuns_trainT (base : Nat) (code name : Bytes) : OkRuns (trainRunsT base code name) := by
+  unfold trainRunsT
+  rw [turbo_runs.2.2.1, turbo_runs.2.2.2.1, turbo_runs.2.2.2.2]
+  refine okRuns_append _ _ (okRuns_append _ _ (okRuns_append _ _ (okRuns_append _ _ (okRuns_append _ _ (okRuns_append _ _ ?_ ?_) ?_) ?_) ?_) ?_) ?_
+  · exact okRuns_append _ _ (okRuns_flatten_replicate 1024 _ (okRuns_of_B _ (by decide))) (okRuns_of_B _ (by decide))
+  · exact okRuns_bits _
+  · exact okRuns_of_B _ (by decide)
+  · exact okRuns_bits _
+  · exact okRuns_of_B _ (by decide)
+  · exact okRuns_bits _
+  · exact okRuns_of_B _ (by decide)
+
+def highsOf (rs : List Run) : List Nat := (rs.filter isHigh).map (fun r => r.2)
+
+theorem highsOf_append (a b : List Run) : highsOf (a ++ b) = highsOf a ++ highsOf b := by simp [highsOf]
+
+theorem highsOf_flatMap {α : Type} (l : List α) (f : α → List Run) : highsOf (l.flatMap f) = l.flatMap (fun x => highsOf (f x)) := by
+  induction l with
+  | nil => simp [highsOf]
+  | cons x t ih => simp [List.flatMap_cons, highsOf_append, ih]
+
+theorem highsOf_flatten_replicate (k : Nat) (runs : List Run) : highsOf (List.replicate k runs).flatten = (List.replicate k (highsOf runs)).flatten := by
+  induction k with
+  | zero => simp [highsOf]
+  | succ k ih => simp [List.replicate_succ, highsOf_append, ih]
+
+def hT (b : Bool) : Nat := if b then 3 else 1
+
+theorem highs_bitsT (bytes : Bytes) : highsOf (bitsRuns wavTurboEnv bytes) = (bitsOf bytes).map hT := by
+  unfold bitsRuns bitsOf
+  rw [highsOf_flatMap, List.map_flatMap]
+  apply flatMap_congrP
+  intro byte _
+  rw [highsOf_flatMap]
+  induction (List.range 8) with
+  | nil => rfl
+  | cons i t ih =>
+    simp only [List.flatMap_cons, List.map_cons, ih]
+    by_cases h : byte / 2 ^ i % 2 = 1
+    · simp [h, turbo_runs.1, highsOf, isHigh, hT]
+    · simp [h, turbo_runs.2.1, highsOf, isHigh, hT]
+
+theorem highs_small :
+    highsOf [((48 : Nat), (4 : Nat))] = [] ∧ highsOf [((200 : Nat), (3 : Nat)), (48, 3), (200, 3), (48, 3)] = [3, 3] ∧
+    highsOf [((200 : Nat), (3 : Nat)), (48, 3)] = [3] ∧ highsOf [((200 : Nat), (12 : Nat)), (48, 12)] = [12] := by decide
+
+theorem flatten_replicate_singleton (k : Nat) (x : Nat) : (List.replicate k [x]).flatten = List.replicate k x := by
+  induction k with
+  | zero => rfl
+  | succ k ih => simp [List.replicate_succ, ih]
+
+theorem highs_trainT (base : Nat) (code name : Bytes) :
+    highsOf (trainRunsT base code name) =
+      List.replicate 1024 3 ++ [12] ++ (bitsOf (tapeHeader base code name)).map hT ++ (bitsOf code).map hT ++
+      (bitsOf (le16 (checksum code))).map hT ++ [3, 3] := by
+  unfold trainRunsT
+  simp only [highsOf_append, highs_bitsT, turbo_runs.2.2.1, turbo_runs.2.2.2.1, turbo_runs.2.2.2.2, highsOf_flatten_replicate,
+    highs_small.1, highs_small.2.1, highs_small.2.2.1, highs_small.2.2.2, flatten_replicate_singleton, List.append_nil]
+
+theorem turboFor_of_highs (bits : List Bool) (ps : List (Nat × Nat)) (h : ps.map Prod.fst = bits.map hT) : TurboFor bits ps := by
+  induction bits generalizing ps with
+  | nil => cases ps with
+    | nil => trivial
+    | cons p t => simp at h
+  | cons b bs ih =>
+    cases ps with
+    | nil => simp at h
+    | cons p t =>
+      simp only [List.map_cons, List.cons.injEq] at h
+      refine ⟨?_, ?_, ih t h.2⟩
+      · rw [h.1]; cases b <;> simp [hT]
+      · rw [h.1]; cases b <;> simp [hT]
+
+theorem bitsOf_append (a b : Bytes) : bitsOf (a ++ b) = bitsOf a ++ bitsOf b := by simp [bitsOf]
+
+theorem trainT_starts_high (base : Nat) (code name : Bytes) :
+    ∃ rest, trainRunsT base code name = (200, 3) :: rest := by
+  unfold trainRunsT
+  rw [turbo_runs.2.2.2.2, show (1024 : Nat) = 1023 + 1 from rfl, List.replicate_succ]
+  generalize List.replicate 1023 [((200 : Nat), (3 : Nat)), (48, 3)] = R
+  exact ⟨_, by simp only [List.flatten_cons, List.cons_append, List.append_assoc]; rfl⟩
+
+/-- **Turbo WAV, end to end, for every image.** The samples `encode_as_wav` emits in the turbo
+format are read by the independent detector and demodulator as exactly the load address, the
+length, the padded name, the image and its end-around-carry checksum. -/
+theorem demodTurbo_encode (base : Nat) (code name : Bytes) (hb : base < 65536) (hl : code.length < 65536)
+    (hc : ∀ b ∈ code, b < 256) (hn : ∀ b ∈ name16 name, b < 256) :
+    demodTurbo (pulseTrain wavTurboEnv true base code name) =
+      some ⟨base, code.length, name16 name, code, checksum code, 1024⟩ := by
+  unfold demodTurbo
+  rw [pulseTrain_turbo_eq]
+  obtain ⟨rest, hstart⟩ := trainT_starts_high base code name
+  have hps := pulses_runs (trainRunsT base code name) (okRuns_trainT base code name) (200, 3) rest hstart (by decide)
+  have hh := highs_trainT base code name
+  unfold highsOf at hh
+  rw [hh] at hps
+  generalize pulses (expandRuns (trainRunsT base code name)) = ps at hps
+  -- split the pulse list along the structure of its high lengths
+  have e1 : List.replicate 1024 3 ++ [12] ++ (bitsOf (tapeHeader base code name)).map hT ++ (bitsOf code).map hT ++
+      (bitsOf (le16 (checksum code))).map hT ++ [3, 3] =
+      List.replicate 1024 3 ++ (12 :: ((bitsOf (tapeHeader base code name)).map hT ++
+        (((bitsOf code).map hT ++ (bitsOf (le16 (checksum code))).map hT) ++ [3, 3]))) := by
+    simp only [List.append_assoc, List.cons_append, List.nil_append, List.singleton_append]
+  rw [e1] at hps
+  obtain ⟨pilot, r1, rfl, hpil, hr1⟩ := List.map_eq_append_iff.mp hps
+  cases r1 with
+  | nil => simp at hr1
+  | cons marker r2 =>
+    simp only [List.map_cons, List.cons.injEq] at hr1
+    obtain ⟨hmk, hr2⟩ := hr1
+    obtain ⟨hp, r3, rfl, hhp, hr3⟩ := List.map_eq_append_iff.mp hr2
+    obtain ⟨dp, tail, rfl, hdp, htl⟩ := List.map_eq_append_iff.mp hr3
+    have hpl : pilot.length = 1024 := by
+      have := congrArg List.length hpil
+      rw [List.length_map, List.length_replicate] at this
+      exact this
+    have := demodTurbo_ideal_partial base code name (checksum code) hb hl hc hn (checksum_lt code) pilot hp dp tail marker
+      (by
+        intro p hpm
+        have : p.1 ∈ pilot.map Prod.fst := List.mem_map_of_mem (f := Prod.fst) hpm
+        rw [hpil] at this
+        have := List.eq_of_mem_replicate this
+        omega)
+      (by omega) (by omega)
+      (turboFor_of_highs _ _ hhp)
+      (by
+        rw [bitsOf_append]
+        obtain ⟨d1, d2, rfl, hd1, hd2⟩ := List.map_eq_append_iff.mp hdp
+        exact TurboFor_append _ _ _ _ (turboFor_of_highs _ _ hd1) (turboFor_of_highs _ _ hd2))
+      (by have := congrArg List.length htl; simp at this; omega)
+    rw [this, hpl]
+
+
+/-! ## part E -/
+open Pdpy11.Gen
+
+def trainRunsN (base : Nat) (code name : Bytes) : List Run :=
+  rleRuns wavEnv.sync ++ bitsRuns wavEnv (tapeHeader base code name) ++ rleRuns wavEnv.pause ++
+  bitsRuns wavEnv code ++ [] ++ bitsRuns wavEnv (le16 (checksum code)) ++ rleRuns wavEnv.eof
+
+theorem pulseTrain_normal_eq (base : Nat) (code name : Bytes) :
+    pulseTrain wavEnv false base code name = expandRuns (trainRunsN base code name) := by
+  unfold pulseTrain trainRunsN
+  simp only [Bool.false_eq_true, if_false, expandRuns_append, dataBits_eq, expandRle_eq]
+  simp [expandRuns]
+
+theorem rleRuns_append (a b : Gen.Rle) : rleRuns (a ++ b) = rleRuns a ++ rleRuns b := by simp [rleRuns]
+
+theorem rleRuns_five (a b c d e : List Run) (k : Nat) :
+    rleRuns [(a, k), (b, 1), (c, 1), (d, 1), (e, 1)] = (List.replicate k a).flatten ++ (b ++ (c ++ (d ++ e))) := by
+  simp [rleRuns]
+
+theorem rleRuns_one (a : List Run) (k : Nat) : rleRuns [(a, k)] = (List.replicate k a).flatten := by simp [rleRuns]
+
+def blkN : List Run := [((200 : Nat), (2 : Nat)), (48, 2)]
+def markN : List Run := [((200 : Nat), (8 : Nat)), (48, 8), (208, 4), (48, 4)]
+
+theorem normal_runs :
+    rleRuns wavEnv.one = [(200, 2), (48, 2), (208, 4), (48, 4)] ∧ rleRuns wavEnv.zero = [(200, 2), (48, 2), (208, 2), (48, 2)] ∧
+    rleRuns wavEnv.pause = (List.replicate 10 blkN).flatten ++ markN ∧
+    rleRuns wavEnv.eof = (List.replicate 200 blkN).flatten ∧
+    rleRuns wavEnv.sync = (List.replicate 4096 blkN).flatten ++ markN ++ ((List.replicate 10 blkN).flatten ++ markN) := by
+  have hp : rleRuns wavEnv.pause = (List.replicate 10 blkN).flatten ++ markN := by
+    have : wavEnv.pause = [([(200, 2), (48, 2)], 10), ([(200, 8)], 1), ([(48, 8)], 1), ([(208, 4)], 1), ([(48, 4)], 1)] := by decide
+    rw [this, rleRuns_five]; rfl
+  refine ⟨by decide, by decide, hp, ?_, ?_⟩
+  · rw [normal_shapes.2.2.2.2.1, rleRuns_one]; rfl
+  · rw [normal_shapes.2.2.2.1, rleRuns_append, hp, rleRuns_five]; rfl
+
+theorem okRuns_bitsN (bytes : Bytes) : OkRuns (bitsRuns wavEnv bytes) := by
+  apply okRuns_flatMap
+  intro byte _
+  apply okRuns_flatMap
+  intro i _
+  by_cases h : byte / 2 ^ i % 2 = 1
+  · simp only [h, if_true, normal_runs.1]; exact okRuns_of_B _ (by decide)
+  · simp only [h, if_false, normal_runs.2.1]; exact okRuns_of_B _ (by decide)
+
+theorem okRuns_blk (k : Nat) : OkRuns (List.replicate k blkN).flatten :=
+  okRuns_flatten_replicate k _ (okRuns_of_B _ (by decide))
+
+theorem okRuns_trainN (base : Nat) (code name : Bytes) : OkRuns (trainRunsN base code name) := by
+  unfold trainRunsN
+  rw [normal_runs.2.2.1, normal_runs.2.2.2.1, normal_runs.2.2.2.2]
+  have hm : OkRuns markN := okRuns_of_B _ (by decide)
+  refine okRuns_append _ _ (okRuns_append _ _ (okRuns_append _ _ (okRuns_append _ _ (okRuns_append _ _ (okRuns_append _ _ ?_ ?_) ?_) ?_) ?_) ?_) ?_
+  · exact okRuns_append _ _ (okRuns_append _ _ (okRuns_blk _) hm) (okRuns_append _ _ (okRuns_blk _) hm)
+  · exact okRuns_bitsN _
+  · exact okRuns_append _ _ (okRuns_blk _) hm
+  · exact okRuns_bitsN _
+  · trivial
+  · exact okRuns_bitsN _
+  · exact okRuns_blk _
+
+def hN (b : Bool) : List Nat := [2, if b then 4 else 2]
+
+theorem highs_bitsN (bytes : Bytes) : highsOf (bitsRuns wavEnv bytes) = (bitsOf bytes).flatMap hN := by
+  unfold bitsRuns bitsOf
+  rw [highsOf_flatMap, List.flatMap_assoc]
+  apply flatMap_congrP
+  intro byte _
+  rw [highsOf_flatMap]
+  induction (List.range 8) with
+  | nil => rfl
+  | cons i t ih =>
+    simp only [List.flatMap_cons, List.map_cons, ih]
+    by_cases h : byte / 2 ^ i % 2 = 1
+    · simp [h, normal_runs.1, highsOf, isHigh, hN]
+    · simp [h, normal_runs.2.1, highsOf, isHigh, hN]
+
+theorem flatten_replicate_blk (k : Nat) : highsOf (List.replicate k blkN).flatten = List.replicate k 2 := by
+  rw [highsOf_flatten_replicate]
+  have : highsOf blkN = [2] := by decide
+  rw [this, flatten_replicate_singleton]
+
+theorem highs_mark : highsOf markN = [8, 4] := by decide
+
+theorem highs_trainN (base : Nat) (code name : Bytes) :
+    highsOf (trainRunsN base code name) =
+      List.replicate 4096 2 ++ [8, 4] ++ (List.replicate 10 2 ++ [8, 4]) ++ (bitsOf (tapeHeader base code name)).flatMap hN ++
+      (List.replicate 10 2 ++ [8, 4]) ++ (bitsOf code).flatMap hN ++ (bitsOf (le16 (checksum code))).flatMap hN ++ List.replicate 200 2 := by
+  unfold trainRunsN
+  simp only [highsOf_append, highs_bitsN, normal_runs.2.2.1, normal_runs.2.2.2.1, normal_runs.2.2.2.2, flatten_replicate_blk, highs_mark,
+    List.append_nil]
+
+theorem normalFor_of_highs (bits : List Bool) (ps : List (Nat × Nat)) (h : ps.map Prod.fst = bits.flatMap hN) : NormalFor bits ps := by
+  induction bits generalizing ps with
+  | nil => cases ps with
+    | nil => trivial
+    | cons p t => simp at h
+  | cons b bs ih =>
+    match ps, h with
+    | [], h => simp [hN] at h
+    | [p], h => simp [hN] at h
+    | s :: d :: t, h =>
+      simp only [List.map_cons, List.flatMap_cons, hN, List.cons_append, List.nil_append, List.cons.injEq] at h
+      obtain ⟨h1, h2, h3⟩ := h
+      refine ⟨by omega, ?_, ?_, ih t h3⟩
+      · rw [h2]; cases b <;> simp
+      · rw [h2]; cases b <;> simp
+
+theorem NormalFor_append (b1 b2 : List Bool) (p1 p2 : List (Nat × Nat)) (h1 : NormalFor b1 p1) (h2 : NormalFor b2 p2) :
+    NormalFor (b1 ++ b2) (p1 ++ p2) := by
+  induction b1 generalizing p1 with
+  | nil => cases p1 with
+    | nil => simpa using h2
+    | cons p ps => simp [NormalFor] at h1
+  | cons b bs ih =>
+    match p1, h1 with
+    | s :: d :: ps, h1 => exact ⟨h1.1, h1.2.1, h1.2.2.1, ih ps h1.2.2.2⟩
+
+theorem trainN_starts_high (base : Nat) (code name : Bytes) :
+    ∃ rest, trainRunsN base code name = (200, 2) :: rest := by
+  unfold trainRunsN
+  rw [normal_runs.2.2.2.2, show (4096 : Nat) = 4095 + 1 from rfl, List.replicate_succ]
+  generalize List.replicate 4095 blkN = R
+  exact ⟨_, by simp only [blkN, List.flatten_cons, List.cons_append, List.append_assoc]; rfl⟩
+
+theorem mem_replicate_lt (k v m : Nat) (hv : v < m) (ps : List (Nat × Nat)) (h : ps.map Prod.fst = List.replicate k v) :
+    ∀ p ∈ ps, p.1 < m := by
+  intro p hp
+  have : p.1 ∈ ps.map Prod.fst := List.mem_map_of_mem (f := Prod.fst) hp
+  rw [h] at this
+  have := List.eq_of_mem_replicate this
+  omega
+
+/-- **Normal-speed WAV, end to end, for every image.** The samples `encode_as_wav` emits are read
+by the independent detector and the model of the BK-0010 monitor's reading as exactly the load
+address, the length, the padded name, the image and its end-around-carry checksum. -/
+theorem demodNormal_encode (base : Nat) (code name : Bytes) (hb : base < 65536) (hl : code.length < 65536)
+    (hc : ∀ b ∈ code, b < 256) (hn : ∀ b ∈ name16 name, b < 256) :
+    demodNormal (pulseTrain wavEnv false base code name) =
+      some ⟨base, code.length, name16 name, code, checksum code, 4096⟩ := by
+  unfold demodNormal
+  rw [pulseTrain_normal_eq]
+  obtain ⟨rest, hstart⟩ := trainN_starts_high base code name
+  have hps := pulses_runs (trainRunsN base code name) (okRuns_trainN base code name) (200, 2) rest hstart (by decide)
+  have hh := highs_trainN base code name
+  unfold highsOf at hh
+  rw [hh] at hps
+  generalize pulses (expandRuns (trainRunsN base code name)) = ps at hps
+  generalize hP1 : List.replicate 4096 2 = P1 at hps
+  generalize hP2 : List.replicate 10 2 = P2 at hps
+  generalize hP3 : List.replicate 200 2 = P3 at hps
+  have e1 : P1 ++ [8, 4] ++ (P2 ++ [8, 4]) ++ (bitsOf (tapeHeader base code name)).flatMap hN ++ (P2 ++ [8, 4]) ++
+      (bitsOf code).flatMap hN ++ (bitsOf (le16 (checksum code))).flatMap hN ++ P3 =
+      P1 ++ (8 :: 4 :: (P2 ++ (8 :: 4 :: ((bitsOf (tapeHeader base code name)).flatMap hN ++ (P2 ++ (8 :: 4 ::
+        (((bitsOf code).flatMap hN ++ (bitsOf (le16 (checksum code))).flatMap hN) ++ P3))))))) := by
+    simp only [List.append_assoc, List.cons_append, List.nil_append]
+  rw [e1] at hps
+  obtain ⟨pilot1, r1, rfl, hp1, hr1⟩ := List.map_eq_append_iff.mp hps
+  match r1, hr1 with
+  | [], hr1 => simp at hr1
+  | [x], hr1 => simp at hr1
+  | m1 :: o1 :: r2, hr1 =>
+    simp only [List.map_cons, List.cons.injEq] at hr1
+    obtain ⟨hm1, ho1, hr2⟩ := hr1
+    obtain ⟨pilot2, r3, rfl, hp2, hr3⟩ := List.map_eq_append_iff.mp hr2
+    match r3, hr3 with
+    | [], hr3 => simp at hr3
+    | [x], hr3 => simp at hr3
+    | m2 :: o2 :: r4, hr3 =>
+      simp only [List.map_cons, List.cons.injEq] at hr3
+      obtain ⟨hm2, ho2, hr4⟩ := hr3
+      obtain ⟨hp, r5, rfl, hhp, hr5⟩ := List.map_eq_append_iff.mp hr4
+      obtain ⟨pilot3, r6, rfl, hp3, hr6⟩ := List.map_eq_append_iff.mp hr5
+      match r6, hr6 with
+      | [], hr6 => simp at hr6
+      | [x], hr6 => simp at hr6
+      | m3 :: o3 :: r7, hr6 =>
+        simp only [List.map_cons, List.cons.injEq] at hr6
+        obtain ⟨hm3, ho3, hr7⟩ := hr6
+        obtain ⟨dp, tail, rfl, hdp, htl⟩ := List.map_eq_append_iff.mp hr7
+        have hpl : pilot1.length = 4096 := by
+          have := congrArg List.length hp1
+          rw [List.length_map, ← hP1, List.length_replicate] at this
+          exact this
+        have := demodNormal_ideal_partial base code name (checksum code) hb hl hc hn (checksum_lt code)
+          pilot1 pilot2 pilot3 hp dp tail m1 m2 m3 o1 o2 o3
+          (mem_replicate_lt 4096 2 7 (by omega) pilot1 (by rw [hp1, hP1])) (by omega)
+          (mem_replicate_lt 10 2 7 (by omega) pilot2 (by rw [hp2, hP2]))
+          (mem_replicate_lt 10 2 7 (by omega) pilot3 (by rw [hp3, hP2]))
+          (by omega) (by omega) (by omega) (by omega) (by omega) (by omega)
+          (normalFor_of_highs _ _ hhp)
+          (by
+            rw [bitsOf_append]
+            obtain ⟨d1, d2, rfl, hd1, hd2⟩ := List.map_eq_append_iff.mp hdp
+            exact NormalFor_append _ _ _ _ (normalFor_of_highs _ _ hd1) (normalFor_of_highs _ _ hd2))
+          (by
+            intro p hpm
+            have := mem_replicate_lt 200 2 3 (by omega) tail (by rw [htl, hP3]) p hpm
+            omega)
+        rw [this, hpl]
+
+
+/-! ## part F -/
+open Pdpy11.Gen
+
+theorem expandRuns_length (rs : List Run) : (expandRuns rs).length = (rs.map (fun r => r.2)).sum := by
+  induction rs with
+  | nil => rfl
+  | cons r t ih => simp [expandRuns_cons, ih]
+
+def runsLen (rs : List Run) : Nat := (rs.map (fun r => r.2)).sum
+
+theorem runsLen_append (a b : List Run) : runsLen (a ++ b) = runsLen a + runsLen b := by simp [runsLen]
+
+theorem runsLen_flatten_replicate (k : Nat) (rs : List Run) : runsLen (List.replicate k rs).flatten = k * runsLen rs := by
+  induction k with
+  | zero => simp [runsLen]
+  | succ k ih => rw [List.replicate_succ, List.flatten_cons, runsLen_append, ih, Nat.succ_mul, Nat.add_comm]
+
+theorem runsLen_bits (env : WavEnvG) (c : Nat) (h1 : runsLen (rleRuns env.one) ≤ c) (h0 : runsLen (rleRuns env.zero) ≤ c) (bytes : Bytes) :
+    runsLen (bitsRuns env bytes) ≤ 8 * c * bytes.length := by
+  unfold bitsRuns
+  induction bytes with
+  | nil => simp [runsLen]
+  | cons b t ih =>
+    rw [List.flatMap_cons, runsLen_append]
+    have hb : runsLen ((List.range 8).flatMap (fun i => rleRuns (if b / 2 ^ i % 2 = 1 then env.one else env.zero))) ≤ 8 * c := by
+      have : ∀ (l : List Nat), runsLen (l.flatMap (fun i => rleRuns (if b / 2 ^ i % 2 = 1 then env.one else env.zero))) ≤ l.length * c := by
+        intro l
+        induction l with
+        | nil => simp [runsLen]
+        | cons i t ih2 =>
+          rw [List.flatMap_cons, runsLen_append]
+          have : runsLen (rleRuns (if b / 2 ^ i % 2 = 1 then env.one else env.zero)) ≤ c := by
+            by_cases hh : b / 2 ^ i % 2 = 1 <;> simp [hh, h1, h0]
+          simp only [List.length_cons]
+          have e : (t.length + 1) * c = t.length * c + c := Nat.succ_mul _ _
+          omega
+      simpa using this (List.range 8)
+    simp only [List.length_cons]
+    have e : 8 * c * (t.length + 1) = 8 * c * t.length + 8 * c := Nat.mul_succ _ _
+    omega
+
+theorem train_length_bound (turbo : Bool) (base : Nat) (code name : Bytes) (hl : code.length < 65536) :
+    (pulseTrain (if turbo then wavTurboEnv else wavEnv) turbo base code name).length < 4294967000 := by
+  have hhdr : (tapeHeader base code name).length = 20 := by simp [tapeHeader, le16, name16]
+  have hck : (le16 (checksum code)).length = 2 := by simp [le16]
+  cases turbo with
+  | true =>
+    simp only [if_true]
+    rw [pulseTrain_turbo_eq, expandRuns_length]
+    show runsLen (trainRunsT base code name) < _
+    unfold trainRunsT
+    simp only [runsLen_append, turbo_runs.2.2.1, turbo_runs.2.2.2.1, turbo_runs.2.2.2.2, runsLen_flatten_replicate]
+    have b1 := runsLen_bits wavTurboEnv 5 (by rw [turbo_runs.1]; decide) (by rw [turbo_runs.2.1]; decide) (tapeHeader base code name)
+    have b2 := runsLen_bits wavTurboEnv 5 (by rw [turbo_runs.1]; decide) (by rw [turbo_runs.2.1]; decide) code
+    have b3 := runsLen_bits wavTurboEnv 5 (by rw [turbo_runs.1]; decide) (by rw [turbo_runs.2.1]; decide) (le16 (checksum code))
+    rw [hhdr] at b1
+    rw [hck] at b3
+    simp [runsLen] at *
+    omega
+  | false =>
+    simp only [Bool.false_eq_true, if_false]
+    rw [pulseTrain_normal_eq, expandRuns_length]
+    show runsLen (trainRunsN base code name) < _
+    unfold trainRunsN
+    simp only [runsLen_append, normal_runs.2.2.1, normal_runs.2.2.2.1, normal_runs.2.2.2.2, runsLen_flatten_replicate]
+    have b1 := runsLen_bits wavEnv 12 (by rw [normal_runs.1]; decide) (by rw [normal_runs.2.1]; decide) (tapeHeader base code name)
+    have b2 := runsLen_bits wavEnv 12 (by rw [normal_runs.1]; decide) (by rw [normal_runs.2.1]; decide) code
+    have b3 := runsLen_bits wavEnv 12 (by rw [normal_runs.1]; decide) (by rw [normal_runs.2.1]; decide) (le16 (checksum code))
+    rw [hhdr] at b1
+    rw [hck] at b3
+    simp [runsLen, blkN, markN] at *
+    omega
+
+/-- **The WAV file carries exactly the image.** For every load address and image that fit 16 bits,
+every name: the file `encode_as_wav` produces parses, by the independent RIFF reader, as 8-bit mono
+PCM at the format's sample rate, and its data chunk demodulates (BK-0010 monitor reading at normal
+speed, the one-pulse-per-bit reading in turbo) to that address, length, name padded to 16 bytes,
+image, and the end-around-carry checksum of the image. -/
+theorem wav_roundtrip (turbo : Bool) (base : Nat) (code name : Bytes) (hb : base < 65536) (hl : code.length < 65536)
+    (hc : ∀ b ∈ code, b < 256) (hn : ∀ b ∈ name16 name, b < 256) :
+    ∃ f w, encodeAsWav turbo base code name = some f ∧ parseRiff f = some w ∧ w.channels = 1 ∧ w.bits = 8 ∧
+      (if turbo then demodTurbo w.data else demodNormal w.data) =
+        some ⟨base, code.length, name16 name, code, eac code, if turbo then 1024 else 4096⟩ := by
+  have hstruct := wav_structure turbo base code name hb hl
+  have hlen := train_length_bound turbo base code name hl
+  have hck := checksum_eq_eac code hc
+  cases turbo with
+  | true =>
+    simp only [if_true] at *
+    have hr := riff_wellformed (pulseTrain wavTurboEnv true base code name) wavTurboEnv.sampleRate (by decide) (by omega)
+    refine ⟨_, _, hstruct, hr, rfl, rfl, ?_⟩
+    simp only []
+    rw [demodTurbo_encode base code name hb hl hc hn, hck]
+  | false =>
+    simp only [Bool.false_eq_true, if_false] at *
+    have hr := riff_wellformed (pulseTrain wavEnv false base code name) wavEnv.sampleRate (by decide) (by omega)
+    refine ⟨_, _, hstruct, hr, rfl, rfl, ?_⟩
+    simp only []
+    rw [demodNormal_encode base code name hb hl hc hn, hck]
+
+
 end Pdpy11.Props.C13
